@@ -625,4 +625,12 @@ def run(F, R, config="all"):
     r11(F, R)
     K.borrow_rule(R, lambda sub: c18.r4(F, sub), "C05-R9", "MCLMC step-size retry after a faulted step: halve on push, double on pop, unwind every finished level "
                   "(decided by the C18-R4 analysis of mclmc_kernel)", only_rules={"C18-R4"})
+    # a non-finite gradient must come out of the kernels as a non-finite momentum / energy: that is how the fault reaches the divergence test
+    from . import c17, c08
+    K.borrow_rule(R, lambda sub: c17.k12(F, sub), "C05-R12", "faults propagate through the kernels: no formula kernel of the CPU backend clamps an f64 or branches on "
+                  "its class (is_nan / is_finite / is_normal ..), so a non-finite gradient gives a non-finite energy error, which the leapfrog reports as a "
+                  "divergence (C17-K12 analysis)", only_rules={"C17-K12"})
+    # re-initialisation after a rejected starting point must leave the estimators consistent (the update asserts equal counts: a panic, not an error)
+    K.borrow_rule(R, lambda sub: c08.paired_estimators(F, sub), "C05-R13", "a chain initialised again after a faulted start keeps its draw / gradient estimators "
+                  "in step (C08-R14 analysis): otherwise the next draw panics on the count assertion instead of reporting an error", only_rules={"C08-R14"})
     R.assume("user-supplied Math implementations may return any error at any call; is_recoverable() is the documented classifier")
